@@ -21,7 +21,16 @@ ENTRY = dict(
          "group): custom TLS 1.3 specs ending in FakePreSharedKeyExtension (1 and 2 identities), in UtlsPreSharedKeyExtension, "
          "without pre_shared_key, with an own CookieExtension, a spec fingerprinted from a resuming hello - 64 (thorough: 400) "
          "handshakes each because the cookie position is drawn from crypto/rand - and every predefined fingerprint once (PSK ones "
-         "12 times); every second hello walked by the Go oracle, one Coq oracle case per distinct cookie position. Every produced "
+         "12 times); every second hello walked by the Go oracle, one Coq oracle case per distinct cookie position; a "
+         "LIMITS table derived from the wire limits of Model/ExtSpec.v: every one-byte-prefixed vector of every extension type "
+         "(supported_versions, cert-compression algorithms, PSK modes, point formats, ALPN / ALPS / ALPS-new protocol name, "
+         "renegotiated_connection, token-binding parameters, PSK binder) with element counts giving 254 and 255 bytes (must encode to "
+         "a valid hello) and 256 and 257 bytes plus 255 ELEMENTS of two-byte types (must be an error from BuildHandshakeState, or "
+         "from Handshake before a byte is written); every two-byte-prefixed vector (SNI host, groups, sigalgs, sigalgs-cert, "
+         "delegated credentials, ALPN list, key-share data, cookie, session ticket, GREASE body, PSK identity, padding) sized so "
+         "that the extension block is exactly 65535 bytes (must encode) and 65536 (must be an error) and the vector alone at "
+         "65535/65536 bytes (error) - quick: groups, ALPN list and a seed-rotated third of the others, thorough: all; the small cases "
+         "also go to the model, the 64 KiB ones through the Go-side oracles only. Every produced "
          "Hello.Raw goes to the Coq oracle valid_chb (OracleCase) and to the independent Go walker; every custom spec also to the "
          "model of MarshalClientHelloNoECH (header fields + each extension object as a Coq term), which must reproduce Hello.Raw "
          "byte for byte or return an error when the code does. Distinct by (fingerprint, shape) resp. spec index; non-trivial "
